@@ -110,12 +110,21 @@ def cases(tier, seed):
         nmenu = len(menu((tuple(vals), rb.degree_of(vals))))
         for e in range(nmenu):
             yield ("bfs", i, b["depth"], b["state_budget_per_root"], e)
+    # histories on ONE live object (a state rebuilt from its snapshot has no hidden per-object state)
+    for i, (name, vals) in enumerate(ROOTS):
+        nmenu = len(menu((tuple(vals), rb.degree_of(vals))))
+        for e in range(nmenu):
+            yield ("live", i, 2 if tier == "quick" else 3, 0, e)
     lits = ctor_literals()
     for i in range(0, len(lits), 40):
         yield ("ctor", i, 40, 0, 0)
 
 
 def describe(case):
+    if case[0] == "live":
+        vals = ROOTS[case[1]][1]
+        return {"live_history_root": ROOTS[case[1]][0], "first_operation": menu((tuple(vals), rb.degree_of(vals)))[case[4]],
+                "length": case[2]}
     if case[0] == "bfs":
         vals = ROOTS[case[1]][1]
         e = menu((tuple(vals), rb.degree_of(vals)))[case[4]]
@@ -520,7 +529,70 @@ def expand(res, only=None):
     return _expand
 
 
+def touch(kv):
+    """read every query of the object (so that anything it memoises is filled before the next operation)"""
+    try:
+        return (kv.degree, kv.npts, tuple(kv.knots), tuple(kv.limits), len(kv), kv.span(kv[0]), kv.mult(kv[-1]), kv.valid(kv[0]))
+    except Exception:  # noqa: BLE001
+        return None
+
+
+def run_live(case, res):
+    """every sequence of `length` MUTATING menu entries applied to one live object; the reference model is stepped
+    alongside and the invariant (all queries against the element list) is evaluated on that same object after each step"""
+    _, i, length, _, first = case
+    name, vals = ROOTS[i]
+    root = (tuple(vals), rb.degree_of(vals))
+
+    def go(kv, state, path, remaining, only=None):
+        entries = [m for m in menu(state) if m[0] in MUTATING]
+        if only is not None:
+            entries = [menu(state)[only]] if menu(state)[only][0] in MUTATING else []
+        for op, arg, lab in entries:
+            # a fresh live object brought to `state` by replaying the path (not rebuilt from the snapshot)
+            obj = lib.KnotVector(list(vals))
+            cur = root
+            ok = True
+            for (pop, parg) in path:
+                touch(obj)
+                if lib.outcome(apply_lib, obj, pop, parg)[0] != "ok":
+                    ok = False
+                    break
+            if not ok:
+                continue
+            touch(obj)
+            U = exact(list(obj))
+            p = obj.degree
+            exp = model(U, p, op, arg)
+            res.transition()
+            out = lib.outcome(apply_lib, obj, op, arg)
+            where = f"live history {[x[0] for x in path] + [op]} on one object from {list(vals)} (last argument {arg})"
+            tags = dict(op=op, arg=lab, live=True)
+            if exp[0] == "ok" and out[0] == "ok":
+                got = exact(list(obj))
+                if not same_values(got, exp[1], has_float(list(obj)) or op == "convert") or obj.degree != exp[2]:
+                    res.violation("wrong_result", f"{where}: {list(obj)} degree {obj.degree}, expected {exp[1]}", **tags)
+                    continue
+                check_invariant(res, obj, where)
+                res.nontriv((name, tuple(x[0] for x in path), op, lab))
+                res.state(key(state_of(obj)))
+                if remaining > 1:
+                    go(None, state_of(obj), path + [(op, arg)], remaining - 1)
+            elif exp[0] == "reject" and out[0] == "ok":
+                res.violation("accepted_invalid", f"{where}: accepted, now {list(obj)}", **tags)
+            elif exp[0] == "ok" and out[0] != "ok":
+                res.violation("refused_valid", f"{where}: raised {out[1]}: {out[2]}", exc=out[1], **tags)
+            elif out[0] != "ok":
+                check_invariant(res, obj, where + " (after the rejected request)")
+        res.trace()
+
+    go(None, root, [], length, only=first)
+    res.observe((res.transitions, sorted(res.outcomes.items())))
+
+
 def run_case(case, res):
+    if case[0] == "live":
+        return run_live(case, res)
     if case[0] == "bfs":
         _, i, depth, budget, entry = case
         name, vals = ROOTS[i]
